@@ -224,7 +224,7 @@ func (z *Zone) ProveLE(a, b ssa.Value, c int64) bool {
 func ZoneAt(b *ssa.BasicBlock) *Zone {
 	z := NewZone()
 	for _, m := range EdgeCmps(b) {
-		z.AddCmp(m)
+		z.AddCmpLin(m)
 	}
 	return z
 }
@@ -496,4 +496,35 @@ func (z *Zone) Consistent() bool {
 		}
 	}
 	return true
+}
+
+
+// AddCmpLin records a comparison whose sides are linear forms (`len - count <= 0`), falling back to AddCmp.
+func (z *Zone) AddCmpLin(m Cmp) {
+	x, okx := LinOf(m.X)
+	y, oky := LinOf(m.Y)
+	if !okx || !oky {
+		z.AddCmp(m)
+		return
+	}
+	d := x.Add(y, -1) // X - Y
+	n := y.Add(x, -1) // Y - X
+	ok := true
+	switch m.Op {
+	case token.LSS:
+		ok = z.AddLin(d, -1)
+	case token.LEQ:
+		ok = z.AddLin(d, 0)
+	case token.GTR:
+		ok = z.AddLin(n, -1)
+	case token.GEQ:
+		ok = z.AddLin(n, 0)
+	case token.EQL:
+		ok = z.AddLin(d, 0) && z.AddLin(n, 0)
+	default:
+		ok = false
+	}
+	if !ok {
+		z.AddCmp(m)
+	}
 }
